@@ -146,9 +146,9 @@ impl K {
                     let mut ks = kt::key_states(&e);
                     ks.retain(|k| k.1 != "hkdf");
                     ks.sort_by(|a, b| (a.3, &a.0).cmp(&(b.3, &b.0)));
-                    for (kid, usage, status, vf) in ks {
+                    for (kid, usage, status, vf, sc) in ks {
                         let n = self.key_name(&kid, usage);
-                        ko.insert(n, json!({"u": usage, "st": status, "vf": relsecs(vf as i64).max(-1)}));
+                        ko.insert(n, json!({"u": usage, "st": status, "vf": relsecs(vf as i64).max(-1), "sc": relsecs(sc as i64).max(-1)}));
                     }
                 }
                 so.insert(o.to_string(), J::Object(ko));
@@ -299,6 +299,9 @@ impl K {
                 let mut wr = qt.write(t_abs(t)).await.expect("write");
                 let res = match wr.consumer_get_state() {
                     Ok(state) => {
+                        if std::env::var("KV_DEBUG_CID").is_ok() {
+                            eprintln!("DBG repl {from}->{to} t={t} consumer state: {state:?}");
+                        }
                         let mut rd = qf.read().await.expect("read");
                         let ctx = rd.supplier_provide_changes(state);
                         drop(rd);
@@ -395,6 +398,34 @@ fn scenarios() -> Vec<Vec<J>> {
                     json!({"a":"rotate","srv":srv,"obj":obj,"at":500,"t":27}),
                     json!({"a":"sign","srv":srv,"obj":obj,"u":"es256","t":28}),
                     json!({"a":"sign","srv":srv,"obj":obj,"u":"es256","t":501}),
+                ]);
+            }
+        }
+    }
+    // Family derived from the counterexample of KKeysHyp2.cfg (StampOnRevoke = FALSE): a key OLDER than the
+    // changelog window is revoked on A, B - not having seen it - rotates the same object a moment later, then
+    // the replicas exchange in either order (and A restarts): a revocation that is not stamped with its own
+    // change id is trimmed by the merge and the key comes back valid.  Every usage, both objects, both orders.
+    const OLD: u64 = 1_300_000; // > 2 x CHANGELOG_MAX_AGE (604800 s)
+    for (obj, u) in [("ko", "es256"), ("ko", "hs256"), ("ko", "jwe"), ("dom", "es256")] {
+        for rev in ["A", "B"] {
+            let other = if rev == "A" { "B" } else { "A" };
+            for first in [other, rev] {
+                let second = if first == "B" { "A" } else { "B" };
+                v.push(vec![
+                    json!({"a":"sign","srv":"A","obj":obj,"u":u,"t":10}),
+                    json!({"a":"sign","srv":"B","obj":obj,"u":u,"t":11}),
+                    json!({"a":"revoke","srv":rev,"obj":obj,"k":format!("${u}:0"),"t":OLD}),
+                    json!({"a":"rotate","srv":other,"obj":obj,"at":OLD + 1,"t":OLD + 1}),
+                    json!({"a":"repl","from":first,"t":OLD + 2}),
+                    json!({"a":"repl","from":second,"t":OLD + 3}),
+                    json!({"a":"repl","from":first,"t":OLD + 4}),
+                    json!({"a":"repl","from":second,"t":OLD + 5}),
+                    json!({"a":"reload","t":OLD + 6}),
+                    json!({"a":"repl","from":"B","t":OLD + 7}),
+                    json!({"a":"repl","from":"A","t":OLD + 8}),
+                    json!({"a":"sign","srv":"A","obj":obj,"u":u,"t":OLD + 9}),
+                    json!({"a":"sign","srv":"B","obj":obj,"u":u,"t":OLD + 9}),
                 ]);
             }
         }
